@@ -62,6 +62,8 @@ def _timestamps(t, v):
         return _timestamps(a[0 if v[0] == "Left" else 1], v[1])
     if p in ("list", "set"):
         return [x for e in v for x in _timestamps(a[0], e)]
+    if p == "big_map" and isinstance(v, tuple) and v[:1] == ("ptr",):
+        return []
     if p in ("map", "big_map"):
         return [x for k, e in v for x in _timestamps(a[0], k) + _timestamps(a[1], e)]
     return []
@@ -88,6 +90,8 @@ def respell(t, v, style):
         return {"prim": v[0], "args": [respell(a[0 if v[0] == "Left" else 1], v[1], style)]}
     if p in ("list", "set"):
         return [respell(a[0], x, style) for x in v]
+    if p == "big_map" and isinstance(v, tuple) and v[:1] == ("ptr",):
+        return {"int": str(v[1])}   # a big_map that lives on chain is denoted by its identifier (0 is a valid identifier)
     if p in ("map", "big_map"):
         return [{"prim": "Elt", "args": [respell(a[0], k, style), respell(a[1], x, style)]} for k, x in v]
     return rv.to_micheline(t, v, "optimized" if style in ("opt", "seq") else "readable")
@@ -148,7 +152,7 @@ def cases(draw, depth):
                                   rv.T("pair", rv.T("timestamp"), rv.T("int")), rv.T("map", rv.T("timestamp"), rv.T("nat"))]))
     else:
         t = draw(_types(depth))
-    v = draw(gt.values(t))
+    v = draw(gt.values(t, ptrs=True))
     return {"t": t, "v": rv.to_micheline(t, v), "style": draw(st.sampled_from(["nested", "nested", "nary", "seq", "opt"]))}
 
 
